@@ -13,6 +13,8 @@ def main():
     sizes = lambda b: [b["L"]] * b["NC"]
     cfgs = ["MC_BigWig_t1.cfg", "MC_BigWig_t2.cfg"] if run.thorough else ["MC_BigWig_q1.cfg", "MC_BigWig_q2.cfg"]
     beh = emit(run, "MC_BigWig", cfgs)
+    # deeper layouts by random walks: 5..8 items over two chromosomes, one or two per block, fan-out 2 => 3- and 4-level indexes
+    beh += emit_sim(run, "MC_BigWig", "MC_BigWig_deep.cfg", 3000 if run.thorough else 300)
     if not run.thorough:
         beh = beh[::2]
     cases = make_cases(beh, "bw", sizes, run, allq=1)
